@@ -15,6 +15,7 @@ Not decided: completeness with respect to the cutoff (a geometric search).  Deci
   * dimension-generic.
 """
 import ast
+from ..model import ast_copy as _ast_copy
 
 from ..model import AnalysisError, dotted, unparse, walk_local
 from ..engines import pattern, flow
@@ -140,7 +141,7 @@ def run(model, rep, tier):
 def _anon_comp(e):
     """comprehension variables renamed _0, _1, ... (sibling formulas are compared up to the name of the running index)"""
     import copy
-    e = copy.deepcopy(e)
+    e = _ast_copy(e)
     names = {}
     for c in ast.walk(e):
         if isinstance(c, ast.comprehension):
